@@ -61,14 +61,22 @@ def gen_call(ctx: Ctx, P, for_mean=False):
     # `inputs: Iterable[Tensor]`, `tensors: Sequence[Tensor]`: any kind of iterable is legal, one-shot ones included
     inputs_kind = rng.choice(["list", "list", "tuple", "gen", "iter", "dictkeys"])
     tensors_kind = rng.choice(["list", "list", "tuple"])
+    hook = None
+    if agg[0] in ("const", "sum", "mean", "sub") and model_inputs and rng.random() < 0.25:
+        hook = rng.choice(model_inputs)      # a doubling gradient hook on one requested leaf (linear aggregators: the deposit doubles)
     return dict(tensors=tensors, inputs=inputs, model_inputs=model_inputs, agg=agg, chunk=chunk,
-                retain=retain, pre=pre, m=m, inputs_kind=inputs_kind, tensors_kind=tensors_kind)
+                retain=retain, pre=pre, m=m, inputs_kind=inputs_kind, tensors_kind=tensors_kind, hook=hook)
 
 
 def one(ctx: Ctx, P, call, dtypes):
     report = P.leaves()
     merr, mg, msw = model_backward(ctx.driver, P, call["tensors"], call["model_inputs"], call["agg"],
                                    call["chunk"], call["retain"], call["pre"], report)
+    h = call.get("hook")
+    if h is not None and merr is None and mg.get(h) is not None:
+        p0 = call["pre"].get(h)
+        mg = dict(mg)
+        mg[h] = [(0 if p0 is None else int(p0[j])) + 2 * (v - (0 if p0 is None else int(p0[j]))) for j, v in enumerate(mg[h])]
     big = max_abs(mg)
     for dtype in dtypes:
         if dtype == torch.float32 and (big * 4096 > 2 ** 22 or P.big):
@@ -79,7 +87,8 @@ def one(ctx: Ctx, P, call, dtypes):
             continue
         rerr, rg, _ = real_backward(P, dtype, call["tensors"], call["inputs"], call["agg"], call["chunk"],
                                     call["retain"], call["pre"], report,
-                                    inputs_kind=call.get("inputs_kind", "list"), tensors_kind=call.get("tensors_kind", "list"))
+                                    inputs_kind=call.get("inputs_kind", "list"), tensors_kind=call.get("tensors_kind", "list"),
+                                    hooks=None if h is None else {h: 2.0})
         touched = sum(1 for k in report if rg[k] != (None if call["pre"].get(k) is None else
                                                      [x for x in map(int, call["pre"][k])]))
         spec = {k: v for k, v in call.items() if k not in ("pre",)}
